@@ -173,7 +173,13 @@ func (thisListener *GruleV3ParserListener) ExitRuleEntry(ctx *grulev3.RuleEntryC
 	}
 	if ctx.RuleDescription() != nil {
 		txt := ctx.RuleDescription().GetText()
-		entry.RuleDescription = txt[1 : len(txt)-1]
+		desc, err := unquoteString(txt)
+		if err != nil {
+			thisListener.ErrorCallback.AddError(fmt.Errorf("error parsing rule description (%s): %s", txt, err.Error()))
+
+			return
+		}
+		entry.RuleDescription = desc
 	}
 
 	entryReceiver, popOk := thisListener.Stack.Peek().(ast.RuleEntryReceiver)
